@@ -2,6 +2,7 @@ package serviceztypes
 
 import (
 	"crypto/ecdsa"
+	"math/big"
 
 	"github.com/ethereum/go-ethereum/common"
 	"github.com/ethereum/go-ethereum/crypto"
@@ -56,6 +57,17 @@ func (d *DecryptionSignatureData) CheckSignature(signature []byte, address commo
 	h, err := d.HashTreeRoot()
 	if err != nil {
 		return false, errors.Wrap(err, "failed to compute hash tree root of decryption signature data")
+	}
+	// Public key recovery accepts both encodings of an ECDSA signature ((r, s, v) and
+	// (r, N-s, v^1)). Only accept the canonical one, which is what crypto.Sign produces.
+	if len(signature) != crypto.SignatureLength ||
+		!crypto.ValidateSignatureValues(
+			signature[64],
+			new(big.Int).SetBytes(signature[:32]),
+			new(big.Int).SetBytes(signature[32:64]),
+			true,
+		) {
+		return false, errors.New("signature is not in canonical form")
 	}
 	signerPubkey, err := crypto.SigToPub(h[:], signature)
 	if err != nil {
